@@ -40,6 +40,7 @@ def r1(ctx, rep, res, where):
     rep.rule("C13-R1", "blank space exactly where RFC 9535 allows it: no blank-related divergence between the grammar "
              "(with post-checks) and the ABNF in either direction", floor=4)
     G.check_side_conditions(rep, "C13-R1", res, where)
+    G.model_limits(rep, "C13-R1", res, where, "both")
     divs = GM.divergences(res)
     for cmp_ in res["engine"]["compare"]:
         rep.ok("C13-R1", "compared:%s" % cmp_["id"], where, "%d product states" % cmp_["product_states"])
@@ -97,7 +98,7 @@ def r2(ctx, rep, res, where):
 
 def r3(ctx, rep):
     rep.rule("C13-R3", "structural convergence of equivalent spellings (wildcard / descendant forms, bracket unwrapping, quote styles, "
-             "optional parentheses, number spellings)", floor=8)
+             "optional parentheses, number spellings)", floor=9)
     prog = ctx.prog
     ev = Evaluator(prog)
     cs = prog.find_fn("crate::parser::child_segment")
@@ -195,6 +196,12 @@ def r3(ctx, rep):
             X = Tm("call", (fproc, Tm("proj", (at.a[0], "FilterAtom::Filter.expr")), Tm("param", (1, "state"))))
             ok = bb.k == "if" and bb.a[0] == Tm("proj", (at.a[0], "FilterAtom::Filter.not")) and bb.a[2] == X
     rep.check(ok, "C13-R3", "optional-parentheses", prog.loc_of(ap), "(e) with not=false evaluates exactly e", "a parenthesised expression is not evaluated as the expression itself")
+    fc = prog.inherent_method(M + "FilterAtom", "filter")
+    ct = ev.summary(fc)
+    okc = ct.k == "adt" and ct.a[1] == "Filter" and dict(ct.a[2]).get("not") == Tm("param", (1, "not")) \
+        and dict(ct.a[2]).get("expr") is not None and dict(ct.a[2])["expr"].k == "param" and dict(ct.a[2])["expr"].a[0] == 0
+    rep.check(okc, "C13-R3", "parentheses-constructor", prog.loc_of(fc), "FilterAtom::Filter{expr, not} for every nesting",
+              "a parenthesised group is not always built as Filter{expr, not} (`%s`): redundant parentheses change the negation flag" % str(ct)[:200])
     # numbers: Int vs Float decided by . e E only
     pn = "crate::parser::literal::parse_number"
     if pn in prog.bodies:
